@@ -63,6 +63,7 @@ const streamRule = "stream (E2, worker process, real hsmsss connection Selected 
 	"seg: one write, all-single-bytes, every single cut, every pair of cuts (quick: pairs for the 20 streams of <= 2 frames and 6 three-frame streams; thorough: all 84); plus 5 streams with a 70 000-byte data frame and frames pipelined behind it {B, BL, BP, LBH, BBL}: one write, and cuts at the big frame's start +1/+4/+14/+4096/+65536/+65540, its end -1/0/+1; " +
 	"plus 10 streams with a frame the library rejects from its header (PType 1 / undefined SType 8) that CARRIES a body of 5, 6 or 2 000 bytes and frames pipelined behind it {RL, RP, UL, UP, PRP, LUH, QL, QP, LQH, QQP}: one write and every single cut (the 2 000-byte ones: cuts around the header, 1 024 bytes into the body and the frame end) — exactly one Reject.req per such frame, the frames behind it answered / delivered; " +
 	"gap: every single cut x pause {T8-1ms, T8+1ms, 10*T8, 100*T8} (quick: the same 26 streams; thorough: all), every single cut x pause T8+1ms with a local SendDataMessage at T8/2 into the pause (the library's own write must not extend or clear the peer's T8), idle {T8+1ms, 100*T8} before the first byte, all-single-bytes with T8-1ms / T8+1ms between bytes, every pair of cuts x pause pairs {(T8/8, T8-1ms), (1ms, T8-1ms), (T8-1ms, T8/8)} on the streams of <= 2 frames (the deadline counts from the last byte, not from an earlier arming); thorough: every pair of cuts x pauses {T8-1ms, T8+1ms}^2 on the streams of <= 2 frames; " +
+	"retune: T8 changed to 2.5 s / 0.4 s by UpdateConfigOptions on the live session, one complete frame later (the receive loop samples T8 per frame) streams P, PL, LS x every single cut x pause {T8'-1ms, T8'+1ms}: the T8 in force decides; " +
 	"len: first four bytes in {0..9, cap+1, cap+2, 2^31, 2^32-1} alone / followed by a header / byte by byte / directly behind a valid frame: dropped at the same virtual instant with TotalAlloc delta < 1 MiB; legal edge lengths 10, 11 (+stall), cap (+stall): not dropped before T8, dropped after. " +
 	"oracle = reference framing model (deliveries byte-identical and in order, Linktest.rsp echoes, State(), peer EOF, re-dial / re-listen after a drop)"
 
@@ -79,6 +80,15 @@ type streamCase struct {
 	Len      uint32 `json:"len,omitempty"`
 	LenVar   string `json:"len_var,omitempty"` // bare | header | bytewise | second | stall
 	LocalMS  int    `json:"local_ms,omitempty"` // gap: the application sends a message this long into an in-frame pause
+	T8MS     int    `json:"t8_ms,omitempty"`    // gap: T8 is retuned to this by UpdateConfigOptions on the live session before the stream
+}
+
+// t8 is the T8 in force for this case.
+func (sc streamCase) t8() time.Duration {
+	if sc.T8MS > 0 {
+		return time.Duration(sc.T8MS) * time.Millisecond
+	}
+	return streamT8
 }
 
 func (s streamCase) String() string {
@@ -257,6 +267,19 @@ func (r *streamRun) setup() bool {
 	if err := w.Establish(o); err != nil {
 		return r.bad("harness", "establish: %v", err)
 	}
+	if r.sc.T8MS > 0 {
+		// "UpdateConfigOptions retunes live timers": the receive loop reads T8 live
+		if err := w.C.UpdateConfigOptions(hsms.WithT8(r.sc.t8())); err != nil {
+			return r.bad("harness", "UpdateConfigOptions(WithT8): %v", err)
+		}
+		// the receive loop samples T8 when it starts waiting for a frame, and it has been waiting for
+		// this one since before the update: one complete frame later the new value is in force
+		// (demanding it for the frame already being awaited would be more than "live" promises)
+		w.Send(peer.Ctrl(peer.SLinktestReq, 0xFFFF, 0, 0, 0x73000001))
+		if fs := w.Read(); len(fs) != 1 || fs[0].SType != peer.SLinktestRsp {
+			return r.bad("harness", "retune: the priming Linktest.req was answered with %v", streamKeys(fs))
+		}
+	}
 	_, del, _ := w.Snapshot()
 	r.del0, r.dials, r.lists = len(del), w.Net.DialCount(), len(w.Net.Listeners)
 	return true
@@ -314,9 +337,9 @@ func streamSeg(r *streamRun) string {
 		if d := sc.delay(i - 1); d > 0 {
 			_, boundary := ends[off]
 			where := fmt.Sprintf("pause of %v at byte offset %d (%s)", d, off, map[bool]string{true: "between frames", false: "inside a frame"}[boundary])
-			if !boundary && d > streamT8 {
+			if !boundary && d > sc.t8() {
 				// the reference says: dropped when T8 has run out; look right after that instant
-				if lm := time.Duration(sc.LocalMS) * time.Millisecond; lm > 0 && lm < streamT8 {
+				if lm := time.Duration(sc.LocalMS) * time.Millisecond; lm > 0 && lm < sc.t8() {
 					// the library's own traffic in the other direction does not extend the peer's T8
 					w.Advance(lm)
 					call := w.Go(func() { _, _ = w.C.SendDataMessage(context.Background(), 7, 1, false, secs2.U1(9)) })
@@ -333,9 +356,9 @@ func streamSeg(r *streamRun) string {
 						r.bad("stream:gap:local-send", "%s: a local send %v into the pause: returned=%v, %d frame(s) on the wire", where, lm, call.Done(), own)
 						return ""
 					}
-					w.Advance(streamT8 + streamDelta - lm)
+					w.Advance(sc.t8() + streamDelta - lm)
 				} else {
-					w.Advance(streamT8 + streamDelta)
+					w.Advance(sc.t8() + streamDelta)
 				}
 				answers = append(answers, w.Read()...)
 				if !r.expectDropped("in-frame-gap-above-t8", where) || !r.expectDone(frames, complete(off), answers, where+", after the drop") {
@@ -721,6 +744,22 @@ func streamBody(c *vfw.Ctx, t *testing.T) {
 				s := base
 				s.Cuts = []int{first + 65536, first + big + 3}
 				do(s)
+			}
+		}
+		if stop {
+			return
+		}
+	}
+	// ---- T8 retuned on the live session (longer and shorter than the configured 1 s) ----
+	for _, letters := range []string{"P", "PL", "LS"} {
+		n := streamLen(letters)
+		for _, active := range roles {
+			for _, nt8 := range []int{2500, 400} {
+				for a := 1; a < n; a++ {
+					for _, d := range []int{nt8 - 1, nt8 + 1} {
+						do(streamCase{Fam: "gap", Active: active, Frames: letters, Cuts: []int{a}, DelaysMS: []int{d}, T8MS: nt8})
+					}
+				}
 			}
 		}
 		if stop {
